@@ -61,6 +61,14 @@ class DecSub(Decimal):
 		return f"DecSub({Decimal.__str__(self)!r})"
 
 
+class Stamp(datetime):
+	"""a datetime subclass (a time of day travels with it)"""
+
+
+class Day(date):
+	"""a date subclass"""
+
+
 class MyInt(int):
 	def __repr__(self):
 		return f"MyInt({int(self)})"
